@@ -305,7 +305,7 @@ func c12DecodePipe(c *Case) (*c12Pipe, error) {
 
 // ---------- YAML ----------
 
-func yq(b []byte) string {
+func c12yq(b []byte) string {
 	var sb strings.Builder
 	sb.WriteByte('"')
 	for _, c := range b {
@@ -347,7 +347,7 @@ func fname(i int) string {
 func (pc *c12Pipe) stxYAML(s *c12Stx, ind string, sb *strings.Builder) {
 	switch s.Kind {
 	case 1:
-		fmt.Fprintf(sb, "%s- type: addFields\n%s  fields:\n%s    %s: %s\n", ind, ind, ind, fname(s.Dst), yq(pc.lit(s.Site)))
+		fmt.Fprintf(sb, "%s- type: addFields\n%s  fields:\n%s    %s: %s\n", ind, ind, ind, fname(s.Dst), c12yq(pc.lit(s.Site)))
 	case 2:
 		expr := "$" + fname(s.Src)
 		if s.HasSlice {
@@ -360,7 +360,7 @@ func (pc *c12Pipe) stxYAML(s *c12Stx, ind string, sb *strings.Builder) {
 			}
 			expr = fmt.Sprintf("${%s[%s:%s]}", fname(s.Src), a, b)
 		}
-		fmt.Fprintf(sb, "%s- type: addFields\n%s  fields:\n%s    %s: %s\n", ind, ind, ind, fname(s.Dst), yq([]byte(expr)))
+		fmt.Fprintf(sb, "%s- type: addFields\n%s  fields:\n%s    %s: %s\n", ind, ind, ind, fname(s.Dst), c12yq([]byte(expr)))
 	case 3:
 		var t []byte
 		for _, p := range s.Parts {
@@ -370,17 +370,17 @@ func (pc *c12Pipe) stxYAML(s *c12Stx, ind string, sb *strings.Builder) {
 				t = append(t, "${"+fname(p[1])+"}"...)
 			}
 		}
-		fmt.Fprintf(sb, "%s- type: addFields\n%s  fields:\n%s    %s: %s\n", ind, ind, ind, fname(s.Dst), yq(t))
+		fmt.Fprintf(sb, "%s- type: addFields\n%s  fields:\n%s    %s: %s\n", ind, ind, ind, fname(s.Dst), c12yq(t))
 	case 4:
 		fmt.Fprintf(sb, "%s- type: mapValue\n%s  key: %s\n%s  mapping:\n", ind, ind, fname(s.Key), ind)
 		for _, p := range s.Pairs {
-			fmt.Fprintf(sb, "%s    %s: %s\n", ind, yq(pc.lit(p[0])), yq(pc.lit(p[1])))
+			fmt.Fprintf(sb, "%s    %s: %s\n", ind, c12yq(pc.lit(p[0])), c12yq(pc.lit(p[1])))
 		}
 		if s.HasDflt {
-			fmt.Fprintf(sb, "%s  default: %s\n", ind, yq(pc.lit(s.Dflt)))
+			fmt.Fprintf(sb, "%s  default: %s\n", ind, c12yq(pc.lit(s.Dflt)))
 		}
 	case 5:
-		fmt.Fprintf(sb, "%s- type: truncate\n%s  key: %s\n%s  maxLen: %d\n%s  suffix: %s\n", ind, ind, fname(s.Key), ind, s.MaxLen, ind, yq(pc.lit(s.Suffix)))
+		fmt.Fprintf(sb, "%s- type: truncate\n%s  key: %s\n%s  maxLen: %d\n%s  suffix: %s\n", ind, ind, fname(s.Key), ind, s.MaxLen, ind, c12yq(pc.lit(s.Suffix)))
 	case 6:
 		fmt.Fprintf(sb, "%s- type: unescape\n%s  key: %s\n", ind, ind, fname(s.Key))
 	case 7:
@@ -397,9 +397,9 @@ func (pc *c12Pipe) condsYAML(cs []c12Cond, ind string, sb *strings.Builder) {
 	for _, c := range cs {
 		switch c.Op {
 		case 0:
-			fmt.Fprintf(sb, "%s    %s: !!str-eq %s\n", ind, fname(c.F), yq(pc.lit(c.V)))
+			fmt.Fprintf(sb, "%s    %s: !!str-eq %s\n", ind, fname(c.F), c12yq(pc.lit(c.V)))
 		case 1:
-			fmt.Fprintf(sb, "%s    %s: !!str-not %s\n", ind, fname(c.F), yq(pc.lit(c.V)))
+			fmt.Fprintf(sb, "%s    %s: !!str-not %s\n", ind, fname(c.F), c12yq(pc.lit(c.V)))
 		case 2:
 			fmt.Fprintf(sb, "%s    %s: !!str-any\n", ind, fname(c.F))
 		default:
@@ -446,7 +446,7 @@ func (pc *c12Pipe) yaml(outs []int) string {
 		if i > 0 {
 			sb.WriteString(", ")
 		}
-		sb.WriteString(yq(pc.lit(i)))
+		sb.WriteString(c12yq(pc.lit(i)))
 	}
 	sb.WriteString("]\n    extractions:\n")
 	pc.progYAML(pc.Extract, "      ", &sb)
